@@ -43,7 +43,8 @@ def generate(ctx):
         cases.append(case(cs, a, b, tags))
     # documents nested about as deep as the parser accepts (arrays only: comparing nested OBJECTS is exponential in the library)
     if ctx.get('seed_index', 0) == 0:
-        for depth in (997, 998, 999, 1000):     # the follow-up health check re-parses the printed inputs: stay within the parser's nesting limit
+        NL = nesting_limit(ctx['repo'])
+        for depth in (NL - 3, NL - 2, NL - 1, NL):     # the follow-up health check re-parses the printed inputs: stay within the parser's nesting limit
             for x, y in ((1, 2), (True, False), ('x', 'y'), (None, 0)):
                 a = x; b = y
                 for _ in range(depth): a = [a]; b = [b]
